@@ -68,10 +68,10 @@ fn typed_args(rng: &mut Rng, name: &str, w: &World, gnodes: usize) -> Vec<MVal> 
             let n = rng.below(4);
             let mut f = String::new();
             for _ in 0..n {
-                f.push_str(*rng.pick(&["", "a", "{{", "}}", "é "]));
+                f.push_str(*rng.pick(&["", "a", "{{", "}}", "é ", "", "a", "{{", "}}", "{x", "}x", "{ }"]));
                 f.push_str("{}");
             }
-            f.push_str(*rng.pick(&["", "{{}}", "}}", "!"]));
+            f.push_str(*rng.pick(&["", "{{}}", "}}", "!", "", "{{}}", "}}", "!", "{", "}", "{é", "}}}"]));
             let mut args = vec![MVal::Str(f)];
             let k = if rng.chance(1, 5) { n + 1 } else if rng.chance(1, 5) && n > 0 { n - 1 } else { n };
             for _ in 0..k {
